@@ -49,8 +49,10 @@ func run(r *vk.Runner) {
 	cases := gpb.SingleFieldCases()
 	cases = append(cases, gpb.PairCases()...)
 	gj5s.Silence()
-	cases = append(cases, gbridge.Cases(gbridge.Programs())...)
-	if !r.Quick() {
+	if r.Quick() {
+		cases = append(cases, gbridge.Cases(gbridge.Programs())...)
+	} else {
+		cases = append(cases, gbridge.Cases(gbridge.ThoroughPrograms())...)
 		cases = append(cases, gpb.DeepCases()...)
 	}
 	for _, c := range cases {
